@@ -1192,3 +1192,147 @@ Proof.
   unfold find_or_register. rewrite Hnone. unfold reg_register. cbn [fst snd es_w w_routers].
   fold key. rewrite lookup_insert. reflexivity.
 Qed.
+
+(* ------------------------------------------------------------------ *)
+(* The bgp-tcp-in unit in the pipeline (E2eModel, last part).          *)
+
+(* what the unit holds is the file of the latest load - from the operations alone *)
+Lemma b_run_cfg h : forall st,
+  bs_cfg (b_run st h) = b_loaded (bs_file st) (bs_cfg st) h /\
+  bs_file (b_run st h) = fold_left bcfg_edit h (bs_file st).
+Proof.
+  induction h as [|o h IH]; intros st; [split; reflexivity|].
+  cbn [b_run fold_left]. fold (b_run (b_step st o) h).
+  destruct (IH (b_step st o)) as [IH1 IH2]. rewrite IH1, IH2. clear IH IH1 IH2.
+  destruct o as [e|k v|a|k|k u|k|unh]; cbn [b_loaded bcfg_edit].
+  - destruct e; split; reflexivity.
+  - split; reflexivity.
+  - split; reflexivity.
+  - cbn [b_step]. destruct (negb (is_bgp_addr k)); [split; reflexivity|].
+    destruct (bs_sess st !! k); [split; reflexivity|].
+    destruct (bc_peers (bs_cfg st) !! k); split; reflexivity.
+  - cbn [b_step]. destruct (bs_sess st !! k); split; reflexivity.
+  - cbn [b_step]. destruct (bs_sess st !! k); split; reflexivity.
+  - split; reflexivity.
+Qed.
+
+(* who is accepted = the peer table of the configuration of the latest load, whatever happened before *)
+Theorem bgp_accepts_by_current_peer_table st0 h k :
+  let st := b_run st0 h in
+  let c := b_loaded (bs_file st0) (bs_cfg st0) h in
+  is_bgp_addr k = true -> bs_sess st !! k = None ->
+  bs_sess (b_step st (BOpen k)) !! k = option_map (fun v => (bc_asn c, v)) (bc_peers c !! k) /\
+  bs_accepted (b_step st (BOpen k)) = (bs_accepted st + 1)%N /\
+  (forall j, j <> k -> bs_sess (b_step st (BOpen k)) !! j = bs_sess st !! j).
+Proof.
+  intros st c Hk Hnone. subst c. rewrite <- (proj1 (b_run_cfg h st0)). fold st.
+  cbn [b_step]. rewrite Hk. cbn [negb]. rewrite Hnone.
+  destruct (bc_peers (bs_cfg st) !! k) as [v|]; cbn [bs_sess bs_accepted option_map].
+  - rewrite lookup_insert. split; [reflexivity|]. split; [reflexivity|].
+    intros j Hj. rewrite lookup_insert_ne by congruence. reflexivity.
+  - rewrite Hnone. split; [reflexivity|]. split; [reflexivity|]. reflexivity.
+Qed.
+
+(* the end of one session: the store of `rib` changes under that session's ingress id only; every other session is what it was *)
+Lemma runit_see_withdraw r id w :
+  runit_see r (WoStep (OUpdate (UWithdraw id None)) w) =
+  MkRunit (ru_filter r) (ru_born r) (rib_withdraw_mui (ru_rib r) id None).
+Proof. reflexivity. Qed.
+
+Theorem bgp_session_end_spares_other_peers st k sv id c :
+  bs_sess st !! k = Some sv -> w_bgp (b_world st) !! k = Some (id, c) ->
+  let st' := b_step st (BClose k) in
+  (forall key, k_mui key <> id -> b_rib_lookup st' key = b_rib_lookup st key) /\
+  (forall key, k_mui key = id -> (k_fam key < 4)%N -> b_rib_lookup st' key = withdrawn_of (b_rib_lookup st key)) /\
+  (forall j, j <> k -> w_bgp (b_world st') !! j = w_bgp (b_world st) !! j /\ bs_sess st' !! j = bs_sess st !! j) /\
+  w_bgp (b_world st') !! k = None /\ bs_sess st' !! k = None.
+Proof.
+  intros Hs Hw st'. subst st'. unfold b_rib_lookup, b_world in *. cbn [b_step]. rewrite Hs. cbn [bs_e bs_sess].
+  cbn [e_step]. cbn [wstep]. rewrite Hw. cbn [es_rib es_w w_bgp].
+  rewrite runit_see_withdraw. cbn [ru_rib].
+  split; [|split; [|split; [|split]]].
+  - intros key Hne. rewrite withdraw_mui_frame. unfold down_hits.
+    rewrite bool_decide_eq_false_2 by exact Hne. reflexivity.
+  - intros key He Hf. rewrite withdraw_mui_frame. unfold down_hits.
+    rewrite bool_decide_eq_true_2 by exact He. rewrite bool_decide_eq_true_2 by exact Hf. reflexivity.
+  - intros j Hj. rewrite !lookup_delete_ne by congruence. split; reflexivity.
+  - apply lookup_delete.
+  - apply lookup_delete.
+Qed.
+
+(* a connection that is accepted gets the register's next id: no live session has it (proviso: ids are handed out in order) *)
+Theorem bgp_accepted_session_has_fresh_id st k v :
+  is_bgp_addr k = true -> bs_sess st !! k = None -> bc_peers (bs_cfg st) !! k = Some v -> bgp_next_id_unused st ->
+  let st' := b_step st (BOpen k) in
+  b_session_id st' k = Some (serial (w_reg (b_world st))) /\
+  (forall j, j <> k -> b_session_id st' j = b_session_id st j /\ b_session_id st' j <> b_session_id st' k \/ b_session_id st j = None).
+Proof.
+  intros Hk Hn Hp Hfresh st'. subst st'. unfold b_session_id, b_world in *. cbn [b_step]. rewrite Hk. cbn [negb]. rewrite Hn, Hp.
+  cbn [bs_e e_step wstep]. unfold reg_register. cbn [es_w w_bgp]. rewrite lookup_insert. split; [reflexivity|].
+  intros j Hj. rewrite lookup_insert_ne by congruence.
+  destruct (w_bgp (es_w (bs_e st)) !! j) as [[id c]|] eqn:E; [left|right; reflexivity].
+  split; [reflexivity|]. intros Heq. inversion Heq as [H1]. exact (Hfresh j id c E H1).
+Qed.
+
+(* the race of a session that a load ends, refuted and partial *)
+Definition b_refute_hist (unh : list N) : list bop :=
+  [BOpen 0; BOpen 1; BUpd 0 (URoutes 0 [1%N] 3 0 []); BUpd 1 (URoutes 0 [1%N] 4 0 []); BPeer 0 None; BReload unh].
+
+Theorem bgp_reload_end_unheard_refuted :
+  let st := b_run (b_init SNone 0) (b_refute_hist [0%N]) in
+  b_live st = [1%N] /\
+  b_rib_lookup st (0, 1, 2)%N = Some (true, 3%N) /\
+  b_spec_lookup st 0 1 (bgp_wid 0 0) = Some (false, 3%N) /\
+  b_rib_lookup st (0, 1, 3)%N = Some (true, 4%N).
+Proof. vm_compute. repeat split; reflexivity. Qed.
+
+Theorem bgp_reload_heard_example :
+  let st := b_run (b_init SNone 0) (b_refute_hist []) in
+  b_live st = [1%N] /\
+  b_rib_lookup st (0, 1, 2)%N = Some (false, 3%N) /\
+  b_spec_lookup st 0 1 (bgp_wid 0 0) = Some (false, 3%N) /\
+  b_rib_lookup st (0, 1, 3)%N = Some (true, 4%N) /\
+  bs_disc st = 1%N /\
+  b_sess_of (b_step st (BOpen 0)) 0 = None /\ bs_accepted (b_step st (BOpen 0)) = 3%N.
+Proof. vm_compute. repeat split; reflexivity. Qed.
+
+(* the statements again without std++ notation (for the Props files) *)
+Theorem bgp_accepts_by_current_peer_table_std st0 h k :
+  let st := b_run st0 h in
+  let c := b_loaded (bs_file st0) (bs_cfg st0) h in
+  is_bgp_addr k = true -> b_sess_of st k = None ->
+  b_sess_of (b_step st (BOpen k)) k = option_map (fun v => (bc_asn c, v)) (b_peer_of c k) /\
+  bs_accepted (b_step st (BOpen k)) = (bs_accepted st + 1)%N /\
+  (forall j, j <> k -> b_sess_of (b_step st (BOpen k)) j = b_sess_of st j).
+Proof. exact (bgp_accepts_by_current_peer_table st0 h k). Qed.
+
+Theorem bgp_session_end_spares_other_peers_std st k sv id :
+  b_sess_of st k = Some sv -> b_session_id st k = Some id ->
+  let st' := b_step st (BClose k) in
+  (forall key, k_mui key <> id -> b_rib_lookup st' key = b_rib_lookup st key) /\
+  (forall key, k_mui key = id -> (k_fam key < 4)%N -> b_rib_lookup st' key = withdrawn_of (b_rib_lookup st key)) /\
+  (forall j, j <> k -> b_session_id st' j = b_session_id st j /\ b_sess_of st' j = b_sess_of st j) /\
+  b_session_id st' k = None /\ b_sess_of st' k = None.
+Proof.
+  intros Hs Hid. unfold b_session_id in Hid. destruct (w_bgp (b_world st) !! k) as [[id' c]|] eqn:E; [|discriminate].
+  inversion Hid; subst id'. destruct (bgp_session_end_spares_other_peers st k sv id c Hs E) as (H1 & H2 & H3 & H4 & H5).
+  split; [exact H1|]. split; [exact H2|]. split.
+  - intros j Hj. destruct (H3 j Hj) as [Ha Hb]. unfold b_session_id. rewrite Ha. split; [reflexivity|exact Hb].
+  - unfold b_session_id. rewrite H4. split; [reflexivity|exact H5].
+Qed.
+
+Theorem bgp_accepted_session_has_fresh_id_std st k v :
+  is_bgp_addr k = true -> b_sess_of st k = None -> b_peer_of (bs_cfg st) k = Some v ->
+  (forall j id, b_session_id st j = Some id -> id <> serial (w_reg (b_world st))) ->
+  let st' := b_step st (BOpen k) in
+  b_session_id st' k = Some (serial (w_reg (b_world st))) /\
+  (forall j id, j <> k -> b_session_id st j = Some id -> b_session_id st' j = Some id /\ b_session_id st' j <> b_session_id st' k).
+Proof.
+  intros Hk Hn Hp Hf.
+  assert (Hfresh : bgp_next_id_unused st).
+  { intros j id c E. apply (Hf j id). unfold b_session_id. rewrite E. reflexivity. }
+  destruct (bgp_accepted_session_has_fresh_id st k v Hk Hn Hp Hfresh) as [H1 H2].
+  split; [exact H1|]. intros j id Hj Hid. destruct (H2 j Hj) as [[Ha Hb]|Hc].
+  - rewrite Ha. split; [exact Hid|]. rewrite <- Ha. exact Hb.
+  - rewrite Hc in Hid. discriminate.
+Qed.
